@@ -5,7 +5,7 @@
   theorems: outside it the model is proved to satisfy the spec.
 -/
 import SugarModel.Model.Dispatch
-import SugarModel.Spec.RefMap
+import SugarModel.Spec.RefColl
 namespace Sugar.Known
 open Sugar
 
@@ -119,5 +119,102 @@ def classifyMem (c : Ctx) (s : State) (cmd : List Bytes) : Option String :=
   else if (keyArgs cmd).any present then some "rewrite-of-existing-key-not-reaccounted"
   else if (n == b "lpush" || n == b "rpush") then some "list-create-counted-twice"
   else none
+
+end Sugar.Known
+
+namespace Sugar.Known
+open Sugar
+
+/-- candidate key arguments of the collection commands (over-approximation) -/
+def keyArgsColl (cmd : List Bytes) : List Bytes :=
+  match cmd with
+  | [] => []
+  | name :: args =>
+    let n := toLower name
+    if n == b "lmove" || n == b "smove" then args.take 2
+    else if n == b "sdiff" || n == b "sinter" || n == b "sunion" || n == b "sdiffstore" || n == b "sinterstore" ||
+            n == b "sunionstore" || n == b "sintercard" then args
+    else args.take 1
+
+def adjacentPair (l : List Bytes) (v : Bytes) : Bool :=
+  match l with
+  | x :: y :: r => (x == v && y == v) || adjacentPair (y :: r) v
+  | _ => false
+
+/-- numeric-looking field value that the hash stores in a different spelling -/
+def nonCanonicalF (v : Bytes) : Bool :=
+  match adaptType v with
+  | .int i => fmtInt i != v
+  | .flt f => f.fmtF != v
+  | _ => false
+
+def liveSet (c : Ctx) (s : State) (k : Bytes) : Option (Nat × List Bytes) :=
+  match liveVal c s k with
+  | some (.set o ms) => some (o, ms)
+  | _ => none
+
+def classifyColl (c : Ctx) (s : State) (cmd : List Bytes) : Option String :=
+  let n := cmdName cmd
+  let key := (cmd.drop 1).headD []
+  let lv := liveVal c s key
+  let modelOut := (step c s cmd).map (·.2)
+  let modelPanics := match modelOut with
+    | some (.panic _) => true
+    | _ => false
+  let emptyArr := match modelOut with
+    | some (.done (.ok r)) => r == b "*0"
+    | _ => false
+  if (keyArgsColl cmd).any (expiredPresent c s) then some "expired-key-still-exists"
+  else if (keyArgsColl cmd).any (fun k => match liveVal c s k with | some v => v.oid != 0 | none => false) then some "set-object-shared-between-keys"
+  else if n == b "lrange" && modelPanics then some "lrange-index-panic"
+  else if n == b "ltrim" && modelPanics then some "ltrim-index-panic"
+  else if n == b "lmove" && modelPanics then some "lmove-empty-source-panic"
+  else if n == b "hrandfield" && modelPanics then some "hrandfield-empty-hash-panic"
+  else if emptyArr then some "empty-array-without-terminator"
+  else if n == b "lrange" && cmd.length == 4 && (match lv, parseInt64 (cmd.getD 3 []) with
+      | some (.list _), some e => decide (e < 0)
+      | _, _ => false) then some "lrange-negative-end-miscomputed"
+  else if n == b "lrem" && cmd.length == 4 && (match lv, parseInt64 (cmd.getD 2 []) with
+      | some (.list l), some cnt => decide (cnt ≥ 0) && adjacentPair l (cmd.getD 3 [])
+      | _, _ => false) then some "lrem-skips-adjacent-matches"
+  else if n == b "lmove" && cmd.length == 5 && cmd.getD 1 [] == cmd.getD 2 [] && lv.isSome then some "lmove-same-key-duplicates"
+  else if (n == b "hset" || n == b "hsetnx") && cmd.length ≥ 4 && (match lv with
+      | some (.hash _) => false
+      | some _ => true
+      | none => false) then some "hset-on-wrong-type-replaces"
+  else if (n == b "hset" || n == b "hsetnx") && (Spec.fvPairs (cmd.drop 2)).any (fun p => nonCanonicalF p.2) then some "hash-numeric-text-rewritten"
+  else if n == b "hset" && (match lv with
+      | some (.hash h) =>
+        let fields := ((Spec.fvPairs (cmd.drop 2)).map (·.1)).eraseDups
+        let fresh := (fields.filter fun f => (h.get f).isNone).length
+        h.length + fresh != fresh && h.length + fresh != fields.length
+      | _ => false) then some "hset-reply-counts-all-fields"
+  else if n == b "hincrby" && cmd.length == 4 && (match lv, parseInt64 (cmd.getD 3 []) with
+      | some (.hash h), some d => (match h.get (cmd.getD 2 []) with
+          | some (.int i) => decide (i + d < minInt64 || i + d > maxInt64)
+          | _ => false)
+      | _, _ => false) then some "hash-integer-overflow-wraps"
+  else if n == b "hincrby" && cmd.length == 4 && (match lv with
+      | some (.hash h) => (match h.get (cmd.getD 2 []) with
+          | some (.flt _) => true
+          | _ => false)
+      | _ => false) then some "hincrby-float-typed-field"
+  else if n == b "sintercard" && (match cmd.findIdx? (fun t => eqFold t (b "limit")) with
+      | some i => i ≥ 2 && ((cmd.take i).drop 1).eraseDups.length == 1
+      | none => false) then some "sintercard-single-key-ignores-limit"
+  else if n == b "sadd" && lv.isNone && (cmd.drop 2).eraseDups.length != (cmd.drop 2).length then some "sadd-new-key-counts-duplicates"
+  else if (n == b "sunion" || n == b "sunionstore") &&
+          ((if n == b "sunion" then cmd.drop 1 else cmd.drop 2).any fun k => (liveVal c s k).isNone) then some "sunion-absent-key-rejected"
+  else if (n == b "sunion" || n == b "sunionstore") &&
+          ((if n == b "sunion" then cmd.drop 1 else cmd.drop 2).eraseDups.length ≥ 2) then some "sunion-mutates-operand"
+  else if n == b "sinterstore" && ((cmd.drop 2).any fun k => (liveVal c s k).isNone) then some "sinterstore-absent-operand-keeps-destination"
+  else if n == b "srandmember" && cmd.length == 3 && (match liveSet c s key, Spec.intArg? (cmd.getD 2 []) with
+      | some (_, ms), some (some cnt) => decide (cnt < 0) && decide (cnt.natAbs ≥ ms.length)
+      | _, _ => false) then some "srandmember-negative-count-capped"
+  else none
+
+/-- classification over every specified command -/
+def classifyAll (c : Ctx) (s : State) (cmd : List Bytes) : Option String :=
+  (classifyKv c s cmd).orElse fun _ => classifyColl c s cmd
 
 end Sugar.Known
